@@ -219,7 +219,8 @@ def generate(rng, config):
 TOKENS = ["p", "cnf", "c", "0", "1", "-1", "2", "-2", "3", "-3", "4", "\n",
           "\n", "\n", " ", "\t", "p cnf", "p cnf 2 1\n", "p cnf 3 2\n", "00",
           "-0", "+1", "1_0", "x", "-", "%", "\r\n", "\r", "٣", "1.0",
-          "c x\n", "pcnf", "99", "-99", "\x0c", " ", "0\n", " 0\n"]
+          "c x\n", "pcnf", "99", "-99", "\x0c", " ", "0\n", " 0\n",
+          "\x1c", "1\x1c2", "\u2028", "\x85", "\x1f0", "2\u20283"]
 
 
 def _gen_text(rng):
@@ -263,7 +264,9 @@ def build_formula(f, ctx):
             F.new_block(*g["ranges"])
         else:
             F.new_block(*g["ranges"], label=g["label"])
-    F.update_variable_number(f["n"])
+    # (python's True is the integer 1, also as a count)
+    F.update_variable_number(True if f.get("bool_literals") and f["n"] == 1
+                             else f["n"])
     refused = {}
     for pos, bad in f.get("refused") or []:
         refused.setdefault(pos, []).append(bad)
